@@ -412,7 +412,12 @@ func (p *parser) readError(idl *IDL) (*Error, error) {
 	}
 
 	p.advanceOnLine()
+	start := p.position
 	e.Type = p.readType()
+	if e.Type == nil && p.position != start {
+		// something follows the name that is not a type: do not drop it silently
+		return nil, fmt.Errorf("invalid error type")
+	}
 
 	return e, nil
 }
